@@ -764,7 +764,7 @@ def locality_key(case, diffs):
     return 'offset.alone-vs-together.' + '+'.join(ets)
 
 
-def locality_eval(ctx, T, cases, label, pid_kind, units=None):
+def locality_eval(ctx, T, cases, label, pid_kind, key_of=None):
     """cases whose paths (or `units` = list of (gi, [pi...]) blocks that belong together, e.g. a polygon with its holes)
     are far apart: the result must be exactly the union of the results of offsetting every unit alone."""
     lines, owner = [], []
@@ -797,7 +797,7 @@ def locality_eval(ctx, T, cases, label, pid_kind, units=None):
             nbad += 1
             missing = [list(p) for p in exp if p not in got][:3]
             extra = [list(p) for p in got if p not in exp][:3]
-            key = locality_key(c, None)
+            key = key_of(c) if key_of else locality_key(c, None)
             ctx.violation(key, '%s: offsetting the paths together differs from offsetting each alone although they are far apart '
                           '(delta=%s); paths only in alone-results: %s; only in the joint result: %s'
                           % (label, c['delta'], missing, extra),
@@ -959,7 +959,9 @@ def float_selftest(ctx, T, n=4000):
     for c, h, o in zip(chunks, ho, oo):
         hv, ov = h.split()[1:], o.split()[1:]
         for it, x, y in zip(c, hv, ov):
-            if not hexeq(x, y):
+            # ceil/round are only used followed by a conversion to an integer: compare the values (-0 = 0)
+            same = (float.fromhex(x) == float.fromhex(y)) if it.split()[0] in ('ceil', 'round') else hexeq(x, y)
+            if not same:
                 bad += 1
                 if bad <= 3:
                     ctx.violation('tie-break:FloatModel.ieee-op', 'IEEE operation differs between the C++ build and Coq primitive floats: %s -> %s vs %s' % (it, x, y),
